@@ -264,21 +264,22 @@ def compare {α β : Type} (op : α → β → Res Bool) (xs : Col α) (o : Oper
   toBoolVec (apply (cmpCell op) xs o)
 
 /-- `_Date._elementwise_compare(other, op)`.
-    `iso x y` is `bool(op(x, date.fromisoformat(y)))`; `isStr`/`isDatetime` are the `isinstance`
-    tests on a scalar.  A str-kind Vector / str scalar is read as ISO dates (None guarded); the
-    datetime branches call `datetime.time(0, 0)`, which raises TypeError for every element; every
-    other operand (an untyped empty vector included) goes to `Vector._elementwise_compare`. -/
+    `iso x y` is the comparison after the operand conversion of the date branch: `bool(op(x, date.fromisoformat(y)))`
+    for a str operand, `bool(op(datetime.combine(x, midnight), y))` for a datetime operand; `isStr`/`isDatetime` are the
+    `isinstance` tests on a scalar.  Both conversions are None guarded (the datetime branch since the repair of its
+    `datetime.time(0, 0)` slip, which made it raise TypeError for every element); every other operand (an untyped empty
+    vector included) goes to `Vector._elementwise_compare`. -/
 def dateCompare {α β : Type} (isStr isDatetime : β → Bool) (op : α → β → Res Bool)
     (iso : α → β → Res Bool) (xs : Col α) : Operand β → Res BoolVec
   | .vec ys dt =>
     if xs.length ≠ ys.length then .error .value
     else if kindIs dt .str then toBoolVec (zipCells (cmpCell iso) xs ys)
-    else if kindIs dt .datetime then toBoolVec (zipCells (fun _ _ => .error .type) xs ys)
+    else if kindIs dt .datetime then toBoolVec (zipCells (cmpCell iso) xs ys)
     else compare op xs (.vec ys dt)
   | .seq ys => toBoolVec (seqOp (cmpCell op) xs ys)
   | .scalar s =>
     if isStr s then toBoolVec (mapRes (fun x => cmpCell iso x (some s)) xs)
-    else if isDatetime s then toBoolVec (mapRes (fun _ => .error .type) xs)
+    else if isDatetime s then toBoolVec (mapRes (fun x => cmpCell iso x (some s)) xs)
     else compare op xs (.scalar s)
 
 /-! ### reductions -/
@@ -458,7 +459,7 @@ def conformsTable {ρ : Type} [DecidableEq ρ] :
 
 /-- does `_Date._elementwise_compare` interpret the other operand as ISO date strings? -/
 def usesIso {β : Type} (isStr : β → Bool) : Operand β → Bool
-  | .vec _ dt => kindIs dt .str
+  | .vec _ dt => kindIs dt .str || kindIs dt .datetime
   | .scalar s => isStr s
   | .seq _ => false
 
